@@ -25,7 +25,7 @@ func asmPath(p *Prog) string {
 }
 
 func checkC18(p *Prog, r *Report) {
-	r.Explain("Bit-for-bit equality of the assembly and Go kernels and the error bound against DCT-II are numerical facts about ~4 000 vector instructions; comparing the two operation graphs would be symbolic execution and is declined. Decided necessary conditions: COS — every divisor table (Go tables dctN / dctN32 in transforms and transforms32, assembly DATA tables dct256…dct2) equals 2·cos((i+½)π/N): float64 tables within 1 ulp, float32 tables and the assembly decimals bit-exact after rounding to float32, and the assembly tables bit-equal to the Go tables of the same N; ASMMEM — every memory operand of asmForwardDCT64, asmForwardDCT256 and asmDCT2DHash64 (base pointer provenance, displacement, index range from the counted loops and the gather table, access width from a mnemonic table) lies inside the argument (4·N bytes), the declared frame, the data symbol or the argument/result area, and the base pointer is never overwritten; CALLERLEN — every Go call that can reach a kernel passes at least N elements (E3); FPMODE — no instruction outside the known data-processing mnemonics, in particular none that changes MXCSR; SELECT — the kernel selection variables are written only in their initialisers and one init function, together, under FlagUseASM, and DCT2DHash64 takes the assembly 2-D kernel under the same flag.")
+	r.Explain("Bit-for-bit equality of the assembly and Go kernels and the error bound against DCT-II are numerical facts about ~4 000 vector instructions; comparing the two operation graphs would be symbolic execution and is declined. Decided necessary conditions: COS — every divisor table (Go tables dctN / dctN32 in transforms and transforms32, assembly DATA tables dct256…dct2) equals 2·cos((i+½)π/N): float64 tables within 1 ulp, float32 tables and the assembly decimals bit-exact after rounding to float32, and the assembly tables bit-equal to the Go tables of the same N; ASMMEM — every memory operand of asmForwardDCT64, asmForwardDCT256 and asmDCT2DHash64 (base pointer provenance, displacement, index range from the counted loops and the gather table, access width from a mnemonic table) lies inside the argument (4·N bytes), the declared frame, the data symbol or the argument/result area, and the base pointer is never overwritten; CALLERLEN — every Go call that can reach a kernel passes at least N elements (E3); FPMODE — no instruction outside the known data-processing mnemonics, in particular none that changes MXCSR; FLAT — the portable 2-D kernels store column i's coefficient j at flattens[K*j+i] and the assembly 2-D kernel stores its eight results per column at ret[8*m + column], m = 0..7 once each (same row-major layout; which lane holds which frequency is part of the numerical question); VECSAFE — no counted loop of a portable kernel reads an element that an earlier iteration of that loop wrote (dependence test on the affine indexes over the constant iteration space): the stages are order-free, as the vector formulation requires; SELECT — the kernel selection variables are written only in their initialisers and one init function, together, under FlagUseASM, and DCT2DHash64 takes the assembly 2-D kernel under the same flag.")
 	r.Trusted("the Go assembler's decimal → float32 conversion rounds to nearest", "x86 vector instruction access widths as tabulated", "go vet asmdecl for the argument offsets (cross-reference)")
 	af, err := parseAsm(asmPath(p))
 	if err != nil {
@@ -41,6 +41,20 @@ func checkC18(p *Prog, r *Report) {
 	ruleAsmMemDCT(p, r, af)
 	ruleCallerLen(p, r)
 	ruleSelect(p, r)
+	for _, sp := range []struct {
+		name string
+		K, N int64
+	}{{"DCT2DHash64", 8, 64}, {"DCT2DHash256", 16, 256}} {
+		key := "imagehash/transforms32." + sp.name + " | flatten"
+		if f := p.Func("imagehash/transforms32", "", sp.name); f == nil {
+			r.Undecided("FLAT", key, "-", "unresolved anchor")
+		} else {
+			checkFlattener(p, r, "FLAT", f, key, sp.K, sp.N)
+		}
+	}
+	r.Floor("FLAT", 3)
+	ruleVecSafe(p, r)
+	r.Floor("VECSAFE", 20)
 	r.Floor("COS", 10)
 	r.Floor("ASMMEM", 3)
 	r.Floor("FPMODE", 3)
@@ -288,6 +302,62 @@ func ruleAsmMemDCT(p *Prog, r *Report, af *asmFile) {
 			r.Undecided("ASMMEM", key, at, fmt.Sprintf("only %d memory operands found", res.operands))
 		default:
 			r.OK("ASMMEM", key, at, fmt.Sprintf("%d memory operands checked (%v)", res.operands, res.byBase))
+		}
+	}
+	// FLAT (assembly side): the 2-D kernel stores the 8x8 block row-major — ret[8*m + i], i the column counter in
+	// [0,8), every m in [0,8) once per column — the layout the portable branch is held to by the Go-side FLAT.
+	for _, t := range af.texts {
+		if t.name != "asmDCT2DHash64" {
+			continue
+		}
+		res := asmMemCheck(af, t, map[string]int64{"input": want[t.name]})
+		key := "asm_x86.s asmDCT2DHash64 | result stored as ret[8*m + column]"
+		at := fmt.Sprintf("imagehash/transforms32/asm_x86.s:%d", t.line)
+		const retOff, K = 24, 8 // the result follows the 24-byte slice header of the argument
+		seen := map[int64]int{}
+		idx := ""
+		bad := ""
+		nst := 0
+		for _, in := range t.instrs {
+			d := dstOperand(in)
+			if d == nil || d.kind != "mem" || d.base != "FP" || d.disp < retOff {
+				continue
+			}
+			nst++
+			if d.index == "" || d.scale != 4 {
+				bad = fmt.Sprintf("result store `%s` (line %d) is not indexed by a column counter scaled by 4", in.text, in.line)
+				continue
+			}
+			if idx != "" && idx != d.index {
+				bad = fmt.Sprintf("result stores use different index registers (%s, %s)", idx, d.index)
+			}
+			idx = d.index
+			if (d.disp-retOff)%(4*K) != 0 {
+				bad = fmt.Sprintf("result store `%s` (line %d) is at byte %d of the result, not at the start of a row of %d floats", in.text, in.line, d.disp-retOff, K)
+				continue
+			}
+			seen[(d.disp-retOff)/(4*K)]++
+		}
+		if bad == "" {
+			for m := int64(0); m < K; m++ {
+				if seen[m] != 1 {
+					bad = fmt.Sprintf("row %d of the result is stored %d times per column (want once)", m, seen[m])
+				}
+			}
+			if len(seen) != K {
+				bad = fmt.Sprintf("%d distinct result rows are stored, want %d", len(seen), K)
+			}
+			if want := fmt.Sprintf("0 ≤ %s < %d step 1", idx, K); res.counters[idx] != want {
+				bad = fmt.Sprintf("the index register %s of the result stores is not a counted loop variable over [0,%d): %q", idx, K, res.counters[idx])
+			}
+		}
+		switch {
+		case nst == 0:
+			r.Undecided("FLAT", key, at, "no store into the result area found")
+		case bad != "":
+			r.Bad("FLAT", key, at, bad)
+		default:
+			r.OK("FLAT", key, at, fmt.Sprintf("%d stores per column at ret[8*m + %s], m = 0..7 once each, %s", nst, idx, res.counters[idx]))
 		}
 	}
 	for name := range want {
